@@ -47,6 +47,23 @@ def base_pickles():
     ]
 
 
+def big_pickles():
+    """few, large: asked with a handful of histories only (every view of them is slow)"""
+    return [
+        # a display of more than 1000 items inside a call's arguments (one pickler batch), and a 300-character
+        # literal nested in a call: anything that abbreviates or rewrites big nodes while analysing must not touch
+        # the cached program (seeded C13 r7)
+        ("set1001_p2", __import__("pickle").dumps(set(range(1001)), protocol=2)),
+        ("bigcall", asm.assemble([("GLOBAL", (asm.SINK, "record")), "MARK", "MARK"]
+                                 + [("BININT1", i % 200) for i in range(1003)]
+                                 + ["LIST", ("BINUNICODE", "q" * 300), "TUPLE", "REDUCE", "STOP"])),
+    ]
+
+
+BIG_HISTORIES = [["safety", "unparse"], ["unparse", "safety", "unparse"], ["safety", "imports", "dumps", "unparse"],
+                 ["unparse", "dumps"]]
+
+
 # ------------------------------------------------------------------ one history on the real object
 def run_case(case):
     """real object through one query history; every answer is compared (model-free) with the answer
@@ -270,6 +287,9 @@ def main(tier, seed):
         for perm in itertools.permutations(CORE, k):
             cases.append({"kind": "exh:" + kind, "hex": data.hex(), "queries": list(perm)})
     chk.stats["exhaustive-orderings"] = len(cases)
+    for kind, data in big_pickles():
+        for qs in BIG_HISTORIES:
+            cases.append({"kind": "big:" + kind, "hex": data.hex(), "queries": list(qs)})
     # the same pickles (plus PROTO-tampered ones, whose findings come from opcode-level analyses) parsed at a
     # non-zero stream offset
     offs = list(base_pickles()) + [("dupproto", asm.fam_flagged(rng, "dupproto")[0]),
